@@ -46,9 +46,19 @@ def _mk_indentation(I, fp):
 _IDS = {}
 
 
+_ORIGIN = {}
+
+
 def to_val(objmap, key, obj):
-    """Val (terms) of whatever object is stored under a settings key"""
+    """Val (terms) of whatever object is stored under a settings key (copies are followed back
+    to the value they were made from)"""
     v = objmap.get(id(obj))
+    seen = 0
+    cur = obj
+    while v is None and id(cur) in _ORIGIN and seen < 10:
+        cur = _ORIGIN[id(cur)]
+        v = objmap.get(id(cur))
+        seen += 1
     if v is not None:
         return v
     if obj is None:
@@ -293,6 +303,8 @@ def unit_fit_model(prop, tier=None, seed=None):
         def fitter_ctor(I, self, idnt_arg, **kw):
             # contract of IndentationFitter(idnt): private copy of the current settings + hash;
             # fit() adds the results, which are a function of (columns, settings)
+            _ORIGIN.clear()
+            _ORIGIN.update(I.copy_origin)
             src = snapshot_settings(fp, objmap, fpd)
             st["ghost_src"] = ("fitter", src)
             nfp = sx.Obj(fpcls)
@@ -332,6 +344,8 @@ def unit_fit_model(prop, tier=None, seed=None):
         I = S.I
         fp, vals, pres, fpd, res, new = st["fp"], st["vals"], st["pres"], st["fpd"], st["res"], st["new"]
         fitters, objmap = st["fitters"], st["objmap"]
+        _ORIGIN.clear()
+        _ORIGIN.update(I.copy_origin)
         case = {"kwargs": sorted(st["kwargs"]), "outcome": repr(out), "fitters_built": len(fitters)}
         had_hash = pres["hash"]
         # were all passed settings equal (fit-relevant) to the stored ones?
